@@ -16,6 +16,8 @@ import (
 	"sort"
 	"strings"
 
+	"goa.design/goa/v3/codegen"
+	"goa.design/goa/v3/codegen/generator"
 	"goa.design/goa/v3/eval"
 
 	"verifharness/vh"
@@ -51,6 +53,9 @@ type Program struct {
 	Roots  []RootD `json:"roots"`
 	Regs   []int   `json:"regs"`
 	Stream string  `json:"stream,omitempty"`
+	// Names gives the EvalName of every root (default "root-<index>"); names only
+	// matter to code that looks at them (duplicate detection, any sorting by name).
+	Names []string `json:"names,omitempty"`
 }
 
 // GraphCase is a Roots()-only case: DependsOn table and registration order.
@@ -106,6 +111,7 @@ type run struct {
 	walks      []walkEv
 	registered []int
 	insts      []*tExpr
+	byName     map[string]int
 }
 
 type walkEv struct{ root, at int }
@@ -117,7 +123,12 @@ type tRoot struct {
 	sets [][]eval.Expression
 }
 
-func (r *tRoot) EvalName() string   { return fmt.Sprintf("root-%d", r.idx) }
+func (r *tRoot) EvalName() string {
+	if r.idx < len(r.run.prog.Names) {
+		return r.run.prog.Names[r.idx]
+	}
+	return fmt.Sprintf("root-%d", r.idx)
+}
 func (r *tRoot) Packages() []string { return nil }
 func (r *tRoot) DependsOn() []eval.Root {
 	var out []eval.Root
@@ -419,16 +430,22 @@ func (rn *run) newExpr(root *tRoot, d *ExprD, set, from int) eval.Expression {
 	return e1111{e, s, p, v, f}
 }
 
+// curRun is the run whose roots are registered in eval.Context.
+var curRun *run
+
 func rootIdx(r eval.Root) int {
-	var i int
-	fmt.Sscanf(r.EvalName(), "root-%d", &i)
-	return i
+	if i, ok := curRun.byName[r.EvalName()]; ok {
+		return i
+	}
+	return -1
 }
 
 func build(p *Program) *run {
-	rn := &run{prog: p}
+	rn := &run{prog: p, byName: map[string]int{}}
+	curRun = rn
 	for i := range p.Roots {
 		rn.roots = append(rn.roots, &tRoot{run: rn, idx: i, def: &p.Roots[i]})
+		rn.byName[rn.roots[i].EvalName()] = i
 	}
 	for _, r := range rn.roots {
 		rn.ifaces = append(rn.ifaces, rootIface(r))
@@ -1018,6 +1035,15 @@ func (g *gen) program(mode string, cyclesOK bool) Program {
 	acyclic := !cyclesOK || g.r.Chance(7, 8)
 	errDen := []int{0, 12, 40, 40}[g.r.Intn(4)]
 	p := Program{Roots: make([]RootD, n), Regs: regs}
+	if g.r.Chance(3, 4) {
+		// names in no relation to the dependency order
+		pool := append([]string{}, namePool...)
+		for i := len(pool) - 1; i > 0; i-- {
+			j := g.r.Intn(i + 1)
+			pool[i], pool[j] = pool[j], pool[i]
+		}
+		p.Names = pool[:n]
+	}
 	dens := 1 + g.r.Intn(3)
 	free := append([]int{}, regs...) // roots that may be registered at any time
 	for r := 0; r < n; r++ {
@@ -1087,6 +1113,8 @@ func (g *gen) program(mode string, cyclesOK bool) Program {
 	}
 	return p
 }
+
+var namePool = []string{"design", "generated result types", "cors", "zeta", "alpha", "goa", "m", "a1", "Z", "root-9", "otel", "Design"}
 
 func (g *gen) r2perm(n int) []int {
 	p := make([]int, n)
@@ -1179,7 +1207,12 @@ func corpus() []Program {
 		{Deps: []int{0}, Sets: [][]ExprD{{src(2)}}, Prep: true, Val: 1, Fin: true},
 		{Deps: []int{0}, Sets: [][]ExprD{{src(3)}}, Prep: true, Val: 1, Fin: true},
 		{Deps: []int{1, 2}, Sets: [][]ExprD{{src(4)}}, Prep: true, Val: 1, Fin: true}}}
+	plugin := Program{Stream: "corpus", Regs: []int{1, 0, 2}, Names: []string{"design", "cors", "generated result types"}, Roots: []RootD{
+		{Deps: []int{2}, Sets: [][]ExprD{{src(1)}}, Prep: true, Val: 1, Fin: true},
+		{Deps: []int{0}, Sets: [][]ExprD{{src(2)}}, Prep: true, Val: 1, Fin: true},
+		{Deps: []int{}, Sets: [][]ExprD{{src(3)}}, Fin: true}}}
 	return []Program{
+		plugin, // a plugin root named before the root it depends on
 		one([][]ExprD{{src(1, appendAct(1, src(2))), src(3)}, {src(4)}}), // later set: executed
 		late, self, two, lateCycle, errs, vfail, diamond,
 		{Stream: "corpus", Regs: []int{}, Roots: []RootD{{Deps: []int{}, Sets: [][]ExprD{{src(1)}}}}},                // nothing registered
@@ -1231,11 +1264,145 @@ type progObs struct {
 	Events  int      `json:"events"`
 }
 
-func runProgram(p *Program) (*run, RootsObs, Outcome) {
+func runProgram(p *Program) (*run, RootsObs, Outcome, RootsObs) {
 	rn := build(p)
 	pre := observeRoots()
 	err := eval.RunDSL()
-	return rn, pre, classify(err)
+	return rn, pre, classify(err), observeRoots()
+}
+
+// ---- the generation entry point: generator.Generate calls Context.Roots() on the
+// context RunDSL left behind and hands the roots to the plugin prepare functions, the
+// generators and the plugin generate functions. An observer plugin and an observer
+// generator, registered for a command of their own, record what they are given.
+
+const genCmd = "c11-observe"
+
+type Handover struct {
+	Error      bool    `json:"error"` // Generate failed before reaching any consumer
+	Msg        string  `json:"msg,omitempty"`
+	Prepare    []int   `json:"plugin_prepare"`
+	Generators []int   `json:"generators"`
+	Generate   []int   `json:"plugin_generate"`
+	called     [3]bool `json:"-"`
+}
+
+var curHandover *Handover
+
+func idxList(roots []eval.Root) []int {
+	out := make([]int, len(roots))
+	for i, r := range roots {
+		out[i] = rootIdx(r)
+	}
+	return out
+}
+
+func initGenerate() {
+	codegen.RegisterPlugin("c11-observer", genCmd,
+		func(_ string, roots []eval.Root) error {
+			curHandover.Prepare, curHandover.called[0] = idxList(roots), true
+			return nil
+		},
+		func(_ string, roots []eval.Root, files []*codegen.File) ([]*codegen.File, error) {
+			curHandover.Generate, curHandover.called[2] = idxList(roots), true
+			return files, nil
+		})
+	generator.Generators = func(cmd string) ([]generator.Genfunc, error) {
+		if cmd != genCmd {
+			return nil, fmt.Errorf("unexpected command %q", cmd)
+		}
+		return []generator.Genfunc{func(_ string, roots []eval.Root) ([]*codegen.File, error) {
+			curHandover.Generators, curHandover.called[1] = idxList(roots), true
+			return nil, nil
+		}}, nil
+	}
+}
+
+// observeGenerate runs generator.Generate on the current context. dir lives inside the
+// harness module (Generate asks the go tool for the import path of dir/gen).
+func observeGenerate(dir string) Handover {
+	h := Handover{}
+	curHandover = &h
+	_, err := generator.Generate(dir, genCmd)
+	if err != nil {
+		h.Error, h.Msg = true, err.Error()
+		if !strings.Contains(h.Msg, "dependency cycle") {
+			panic("generator.Generate failed for a reason outside the property: " + h.Msg)
+		}
+		return h
+	}
+	if !h.called[0] || !h.called[1] || !h.called[2] {
+		panic(fmt.Sprintf("generator.Generate did not reach every consumer: %v", h.called))
+	}
+	return h
+}
+
+func coqHandover(h Handover) string {
+	if h.Error {
+		return "None"
+	}
+	return "(Some " + vh.CoqList([]string{vh.CoqNatList(h.Prepare), vh.CoqNatList(h.Generators), vh.CoqNatList(h.Generate)}) + ")"
+}
+
+// handoverOracle: every consumer of Generate gets every registered root once, each after
+// the roots it depends on, in the order Context.Roots() reports.
+func handoverOracle(p *Program, rn *run, post RootsObs, h Handover) []oracleOut {
+	var out []oracleOut
+	fail := func(sig, what string, a ...any) { out = append(out, oracleOut{sig, fmt.Sprintf(what, a...)}) }
+	if h.Error != post.Cycle {
+		fail("generate-cycle-mismatch", "Generate error=%v (%s) while Context.Roots() cycle=%v", h.Error, h.Msg, post.Cycle)
+		return out
+	}
+	if h.Error {
+		return out
+	}
+	isReg := map[int]bool{}
+	for _, q := range rn.registered {
+		isReg[q] = true
+	}
+	for _, c := range []struct {
+		who   string
+		roots []int
+	}{{"plugin prepare functions", h.Prepare}, {"generators", h.Generators}, {"plugin generate functions", h.Generate}} {
+		pos := map[int]int{}
+		for i, r := range c.roots {
+			if _, dup := pos[r]; dup || r < 0 {
+				fail("handover-not-the-roots", "%s got roots %v (registered %v)", c.who, c.roots, rn.registered)
+			}
+			pos[r] = i
+		}
+		for _, q := range rn.registered {
+			if _, ok := pos[q]; !ok {
+				fail("handover-not-the-roots", "%s got roots %v, registered root %d is missing", c.who, c.roots, q)
+			}
+		}
+		for _, r := range c.roots {
+			if r < 0 || !isReg[r] {
+				continue
+			}
+			for d := range strictReach(p, r) {
+				if d == r || !isReg[d] {
+					continue
+				}
+				if pd, ok := pos[d]; !ok || pd > pos[r] {
+					fail("handover-dependency-order", "%s got roots %v (names %v): root %d comes before root %d it depends on", c.who, c.roots, rootNames(p, c.roots), r, d)
+				}
+			}
+		}
+	}
+	return out
+}
+
+func rootNames(p *Program, idx []int) []string {
+	out := make([]string, len(idx))
+	for i, r := range idx {
+		if r >= 0 && r < len(p.Names) {
+			out[i] = p.Names[r]
+		} else {
+			out[i] = fmt.Sprintf("root-%d", r)
+		}
+	}
+	return out
 }
 
 func features(p *Program, rn *run, o Outcome) []string {
@@ -1279,7 +1446,11 @@ func main() {
 	tier := flag.String("tier", "quick", "")
 	out := flag.String("out", ".", "")
 	replay := flag.String("replay", "", "")
+	gendir := flag.String("gendir", "", "directory inside the harness module for generator.Generate (absolute)")
 	flag.Parse()
+	if abs, err := filepath.Abs(*out); err == nil {
+		*out = abs
+	}
 	rng := vh.NewRNG(*seed)
 	res := vh.NewResult()
 	distinct := vh.Distinct{}
@@ -1430,10 +1601,43 @@ func main() {
 	v.Reset()
 
 	// ---- RunDSL on programs
+	var gv strings.Builder
+	ngen, maxGen := 0, 400
+	if *tier == "thorough" {
+		maxGen = 4000
+	}
+	if *replay != "" {
+		maxGen = 5
+	}
+	if *gendir == "" {
+		maxGen = 0
+	} else {
+		must(os.MkdirAll(*gendir, 0o755))
+		defer os.RemoveAll(*gendir)
+		for _, kv := range [][2]string{{"GOFLAGS", "-mod=mod"}, {"GOPROXY", "off"}, {"GOSUMDB", "off"}, {"GOTOOLCHAIN", "local"}} {
+			os.Setenv(kv[0], kv[1])
+		}
+		must(os.Chdir(*gendir))
+		initGenerate()
+	}
 	for i := range progs {
 		p := &progs[i]
-		rn, pre, o := runProgram(p)
-		fmt.Fprintf(&v, "(%d%%N, %s, %s, %s, %s)\n", i, coqProgram(p), coqTrace(rn.trace), coqOutcome(o), coqRoots(pre))
+		rn, pre, o, post := runProgram(p)
+		fmt.Fprintf(&v, "(%d%%N, %s, %s, %s, %s, %s)\n", i, coqProgram(p), coqTrace(rn.trace), coqOutcome(o), coqRoots(pre), coqRoots(post))
+		// the generation entry point, for runs RunDSL accepted (the go tool is consulted
+		// by every Generate call, hence a bounded number of them)
+		if o.Class == "none" && len(rn.registered) > 0 && ngen < maxGen && p.Stream != "witness" {
+			h := observeGenerate(*gendir)
+			fmt.Fprintf(&gv, "(%d%%N, %s, %s)\n", i, coqProgram(p), coqHandover(h))
+			for _, f := range handoverOracle(p, rn, post, h) {
+				record(res, f.sig, f.what, p)
+			}
+			ngen++
+			res.Count("generate_handover")
+			if len(h.Generators) > 1 {
+				distinct.Add(fmt.Sprint("h", i))
+			}
+		}
 		if p.Stream != "hostile" {
 			for _, f := range oracle(p, rn, pre, o) {
 				record(res, f.sig, f.what, p)
@@ -1455,6 +1659,7 @@ func main() {
 		res.Cases = append(res.Cases, nil)
 	}
 	must(os.WriteFile(filepath.Join(*out, "cases_run.txt"), []byte(v.String()), 0o644))
+	must(os.WriteFile(filepath.Join(*out, "cases_generate.txt"), []byte(gv.String()), 0o644))
 
 	// replayable descriptions of the cases (programs only; graph cases are regenerated by index)
 	res.Cases = res.Cases[:0]
@@ -1473,9 +1678,9 @@ func main() {
 		}
 		res.Extra["graphs"] = gs
 	}
-	res.Evaluations = len(graphs) + n4 + len(progs)
+	res.Evaluations = len(graphs) + n4 + len(progs) + ngen
 	res.Distinct = len(distinct)
-	res.Rule = "Roots(): every digraph with self loops on 1-3 roots x every registration order of every non-empty subset (exhaustive; thorough adds all 65536 digraphs on 4 roots x 24 orders); RunDSL(): fixed corpus + witnesses of the recorded findings + seed-driven random programs on 1-6 roots (0-3 sets, 0-3 expressions per set, nested appends to later sets, late registration, duplicate registration, errors in the execute and validate phases, 1/8 cyclic) + hostile stream (appends to any set, dependencies on unregistered roots, 101/103-root registration chains); non-trivial = graph with an edge and >= 2 registered roots, program with >= 3 callbacks; distinct = distinct canonical JSON"
+	res.Rule = "Roots(): every digraph with self loops on 1-3 roots x every registration order of every non-empty subset (exhaustive; thorough adds all 65536 digraphs on 4 roots x 24 orders); RunDSL(): fixed corpus + witnesses of the recorded findings + seed-driven random programs on 1-6 roots (0-3 sets, 0-3 expressions per set, nested appends to later sets, late registration, duplicate registration, errors in the execute and validate phases, 1/8 cyclic) + hostile stream (appends to any set, dependencies on unregistered roots, 101/103-root registration chains); root names drawn without relation to the dependency order (3/4 of the random programs); Context.Roots() observed before and after every run; generator.Generate (observer plugin + observer generator) on the first 400 (thorough 4000) programs RunDSL accepted: roots handed to plugin prepare functions, generators, plugin generate functions; non-trivial = graph with an edge and >= 2 registered roots, program with >= 3 callbacks; distinct = distinct canonical JSON"
 	must(res.Write(filepath.Join(*out, "result.json")))
 }
 
